@@ -88,6 +88,9 @@ func Execute(t *testing.T, sc *Scenario, plan *Plan, ch *Chooser, maxSteps int, 
 	if w := max(plan.Par, twinPar(plan)); w > 64 {
 		maxSteps *= 1 + w/64
 	}
+	if x := plan.X("step_cap_x"); x > 1 {
+		maxSteps *= x // plans that are long by design (a backlog of tens of thousands of values)
+	}
 	res = &RunResult{}
 	defer func() {
 		if x := recover(); x != nil {
@@ -125,6 +128,22 @@ func Execute(t *testing.T, sc *Scenario, plan *Plan, ch *Chooser, maxSteps int, 
 			cancel()
 			ctx, cancel = context.WithDeadline(context.Background(), time.Now().Add(ms(plan.CancelMs)))
 		}
+		neverCancel := false
+		if plan.X("ctx_deadline") == 3 && plan.CancelStep < 0 && plan.CancelMs == 0 && !plan.CancelAtEnd && plan.X("uses") <= 1 && plan.X("cancel_between") == 0 && plan.Twin == nil {
+			// a context that can never be cancelled (Done() == nil), for plans
+			// that never cancel: context.Background, TODO, WithoutCancel
+			cancel()
+			switch plan.Seed0() % 3 {
+			case 0:
+				ctx = context.Background()
+			case 1:
+				ctx = context.TODO()
+			default:
+				ctx = context.WithoutCancel(ctx)
+			}
+			cancel = func() {}
+			neverCancel = true
+		}
 		if plan.X("ctx_deadline") == 2 {
 			// the context ends by expiry (Err = DeadlineExceeded) at the moment
 			// the plan cancels it, whichever way that is
@@ -135,8 +154,16 @@ func Execute(t *testing.T, sc *Scenario, plan *Plan, ch *Chooser, maxSteps int, 
 			}
 			ctx, cancel = newExpiringCtx(dl)
 		}
-		e := &Env{S: s, Plan: plan, Ctx: ctx, cancel: cancel, Abort: make(chan struct{}), Probes: map[string]int{}, Faults: map[string]int{}}
-		s.Watch(ctx.Done(), &e.Cancelled)
+		e := &Env{S: s, Plan: plan, Ctx: ctx, cancel: cancel, NeverCancel: neverCancel, Abort: make(chan struct{}), Probes: map[string]int{}, Faults: map[string]int{}}
+		if ctx.Done() != nil {
+			s.Watch(ctx.Done(), &e.Cancelled)
+		}
+		if neverCancel {
+			e.Probe("never_cancellable_context")
+		}
+		if plan.X("ctx_deadline") == 2 {
+			e.Probe("context_ends_by_expiry")
+		}
 		env = e
 
 		func() {
